@@ -51,9 +51,14 @@ def mixed_predicate(draw, vs):
     def term():
         a = ('var', draw(st.sampled_from(vs)))
         b = ('var', draw(st.sampled_from(vs)))
-        k = draw(st.integers(0, 7))
+        k = draw(st.integers(0, 9))
         if k == 0:
             return a
+        if k == 8:
+            # the grammar is single-sorted: a Boolean or temporal formula over variables can be a term of a predicate
+            return ('bin', draw(st.sampled_from(['xor', 'iff', 'and', 'or', 'implies'])), a, b)
+        if k == 9:
+            return ('un', draw(st.sampled_from(['not', 'once', 'historically'])), a)
         if k == 1:
             return ('bin', draw(st.sampled_from(['+', '-', '*'])), a, b)
         if k == 2:
